@@ -162,6 +162,9 @@ Adjust(t) == /\ pc[t] = "idle" /\ nops[t] < MaxOps /\ lost = {}
 
 Next == \E t \in Threads : Start(t) \/ Resume(t) \/ Interrupt(t) \/ UnlockH(t) \/ UnlockR(t) \/ Adjust(t)
 Spec == Init /\ [][Next]_vars
+\* liveness (tiny configurations only): every thread keeps taking its own steps; interrupts are not forced
+ThreadStep(t) == Start(t) \/ Resume(t) \/ UnlockH(t) \/ UnlockR(t) \/ Adjust(t)
+FairSpec == Spec /\ \A t \in Threads : WF_vars(ThreadStep(t))
 
 (* ------------------------------------------------------------------ properties *)
 \* the ranges held through the lock never share a byte (after every step, adjust included)
@@ -184,6 +187,9 @@ NoStaleWaiter == \A t \in Threads : pc[t] = "wait" => \E e \in Held : Touch(Rng(
 Finished(t) == pc[t] = "idle" /\ own[t] = {}
 NoStuck == ~(/\ \E t \in Threads : pc[t] = "wait" /\ req[t].kind = "lock"
              /\ \A t \in Threads : Finished(t) \/ (pc[t] = "wait" /\ req[t].kind = "lock"))
+\* under FairSpec, with callers that only use the blocking lock() (so nobody holds one range while waiting for another) and
+\* bounded programs: a thread sleeping in lock() is woken and eventually acquires its range
+WaitersProceed == \A t \in Threads : (pc[t] = "wait") ~> (pc[t] = "idle")
 TypeOK == /\ \A t \in Threads : pc[t] \in {"idle", "wait", "woken"} /\ nops[t] \in 0..MaxOps
           /\ \A t \in Threads : (pc[t] = "wait") <=> (waitOn[t] # NoId)
 ====
